@@ -25,9 +25,9 @@ def run(ctx) -> None:
     ctx.rule("b.tail-slice", "every slice x[-e:] with a non-literal e has e provably >= 1 (max(<positive>, ...) on every reaching "
                              "definition, or a positive constant): x[-0:] would be the whole sequence", 2)
     ctx.rule("b.empty-guards", "max()/min() over a sequence and x[0] reads in the display code are guarded by a truth test of that "
-                               "sequence (or an emptiness-implying condition): repr of empty vectors / zero-row tables must not raise", 6)
+                               "sequence (or an emptiness-implying condition): repr of empty vectors / zero-row tables must not raise", 3)
     ctx.rule("c.footer", "the footer's counts come from len(pv) / pv.shape and its dtypes from pv._dtype or a list computed over ALL "
-                         "columns (never the displayed subset); homogeneity is decided over all columns", 4)
+                         "columns (never the displayed subset); homogeneity is decided over all columns", 3)
     ctx.rule("d.preview", "preview = head k + ['...'] + tail k iff len > 2k else everything, same k on both sides; exactly one halving "
                           "of the row budget on each path (global default / per-table override)", 3)
     ctx.rule("e.headers", "display names are the stored names (quoted by repr when needed), never the sanitised ones", 2)
